@@ -317,6 +317,15 @@ def geom(rng, kind=None):
     return g, kind
 
 
+def cover(rng, fd):
+    """a coarser (or finer) grid overlapping the extent of the unit-cell flow direction grid `fd`"""
+    csz = rng.choice([2.0, 2.0, 3.0, 1.0, 0.5, 2.5])
+    xll, yll = rng.choice([0.0, -1.0, -0.5, 1.0]), rng.choice([0.0, -1.0, -0.5, 1.0])
+    ncols = max(1, int(math.ceil((fd["ncols"] - xll) / csz)) + rng.choice([0, 0, 1, -1]))
+    nrows = max(1, int(math.ceil((fd["nrows"] - yll) / csz)) + rng.choice([0, 0, 1, -1]))
+    return {"nrows": nrows, "ncols": ncols, "csz": csz, "xll": xll, "yll": yll}, "cover"
+
+
 def coords(rng, g, n, cls):
     """points relative to the grid extent"""
     out = []
@@ -450,7 +459,7 @@ def gen_gis(rng, scale):
         cl = cells(rng, fd, n, cc)
         ps.append(P("upstream", f"{fk}/len{n}/{cc}", fd=fd, cells=A(cl, "int64")))
         ps.append(P("downstream", f"{fk}/len{n}/{cc}", fd=fd, cells=A(cl, "int64")))
-        oc = rng.choice(["valid", "valid", "valid", "edge", "huge"])
+        oc = rng.choice(["valid"] * 6 + ["edge", "huge"])
         outlet = cells(rng, fd, 1, oc)[0]
         ic = rng.choice(["none", "none", "empty", "valid", "edge"])
         inlets = None if ic == "none" else [] if ic == "empty" else cells(rng, fd, rng.randint(1, 3), ic)
@@ -464,7 +473,8 @@ def gen_gis(rng, scale):
         tag = f"{fk}/outlet_{oc}/delineated"
         ps.append(P("delineate_boundary", tag, **base))
         ps.append(P("compute_flowpathlengths", tag, **base))
-        g, gk = geom(rng, rng.choice(["small", "one", "offset", "row", "csztiny", "csz0", "zerocols"]))
+        g, gk = cover(rng, fd) if rng.random() < 0.7 else \
+            geom(rng, rng.choice(["small", "one", "offset", "row", "csztiny", "csz0", "zerocols"]))
         ps.append(P("intersect", tag + "/" + gk, g=g, filled=rng.random() < 0.5, **base))
         k = rng.choice([0, 1, 1, 2, 3, 5])
         vc = rng.choice(["around", "around", "nan", "inf", "huge"])
@@ -511,7 +521,8 @@ def gen_gis(rng, scale):
             mask = A([1] * ntot, "int32")
         ps.append(P("delineate_boundary", f"{tag}/mask_{mk}", mask=mask, **base))
         ps.append(P("compute_flowpathlengths", tag, **base))
-        g, gk = geom(rng, rng.choice(["small", "one", "offset", "row", "csztiny", "csz0"]))
+        g, gk = cover(rng, fd) if rng.random() < 0.7 else \
+            geom(rng, rng.choice(["small", "one", "offset", "row", "csztiny", "csz0"]))
         ps.append(P("intersect", tag + "/" + gk, g=g, filled=rng.random() < 0.5, **base))
         k = rng.choice([0, 1, 1, 2, 3, 5])
         vc = rng.choice(["around", "around", "nan", "inf"])
